@@ -214,7 +214,8 @@ def _run(state, call, n, k, r, nsel):
         return _fail_step(state, call, n, k, r, nsel)
     from crosshair.core import realize
     from crosshair.tracers import NoTracing
-    a = [realize(x) for x in (state, call, n, k, r, nsel)]
+    from selpick import pick_all
+    a = pick_all((state, call, n, k, r, nsel))
     with NoTracing():
         return _fail_step(*a)
 
